@@ -11,6 +11,7 @@ RULE = ('one evaluation = one driver life with 1-12 clients whose connection slo
         'commands calling command() several times, users connecting and disconnecting mid-run, ticks interleaved. non-trivial = at '
         'least two users had commands buffered in the same cycle; distinct = distinct abstract traces (per cycle: set of users '
         'with buffered commands and set served, slot layout).')
+RULE += (' Later additions: commands that end in an uncaught error among the queued ones; reads interrupted by EINTR; a connection that the client neither closed nor reset must not be closed by the driver.')
 COMPONENTS = {'real': ['src/backend.c main loop (turn granting)', 'src/comm.c process_user_command/get_user_command/first_cmd_in_buf/next_cmd_in_buf/get_user_data', 'lib/efuns/command.c'],
               'stub': ['kernel recv()/epoll (simulated, one recv per readiness event)', 'timer thread (plan ticks)']}
 ASSUMPTIONS = ['a cycle = one pass of the backend loop = one epoll_wait call of the simulated kernel',
